@@ -122,6 +122,29 @@ def run(ctx, proof):
                                 "stream": "exact" if exact else "float", "src": "c07-" + klass})
         ctx.sample({"computer": comp, "n": n, "game": [float(x) for x in v][:16], "mode": mode}, limit=4)
     evals = ctx.evaluations
+    # the four registered gap functions against the model (theories/Env.v ev_gap; l2 through its square)
+    glines, gmeta = [], []
+    for c in model_cases:
+        st, tab = bl.impl_compute(c["comp"], c["n"], c["v"], c["K"])
+        if st != "ok":
+            continue
+        g = bl.make_game(c["comp"], c["n"], c["v"], c["K"])
+        g.compute_bounds()
+        glines.append(f"gaps {c['n']} " + bl.table_line(tab))
+        gmeta.append((c, gaps_of(g)))
+    from common import tokq, close
+    gm = 0
+    for (c, gi), out in zip(gmeta, run_driver_parallel(glines)):
+        vals = [None if x == "E" else float(tokq(x)) for x in out.split()]
+        scale = max([1.0] + [abs(float(x)) for x in c["v"]]) * 2 ** c["n"]
+        ok = (vals[0] is not None and close(gi["exploitability"], vals[0], 1e-8, scale) and close(gi["l1_norm"], vals[1], 1e-8, scale)
+              and close(gi["l2_norm"] ** 2, vals[2], 1e-8, scale * scale) and close(gi["linf_norm"], vals[3], 1e-8, scale))
+        if not ok:
+            gm += 1
+            if gm == 1 and not any(v["found_input"] for v in ctx.violations):
+                ctx.violation(f"correspondence 'GAP_FUNCTIONS = ev_gap model' broke: impl {gi} vs model {vals}",
+                              {"case": campaign.case_json(c), "impl": gi, "model": vals}, found_input=False)
+    ctx.coverage["gap_values_compared_with_model"] = len(gmeta)
     mism = campaign.run_cases(ctx, model_cases, [])
     campaign.report_mismatches(ctx, mism, [], "compute_bounds (impl) = compute (model) on knowledge sets visited along the lattice")
     ctx.coverage["edges_checked"] = evals
